@@ -38,6 +38,8 @@ type act struct {
 	Peer   int    `json:"peer"`
 	Router int    `json:"router"`
 	Peers  []int  `json:"peers"`
+	Fn     string `json:"fn,omitempty"`  // "read": the exported read-only method that is called (readers.go)
+	Arg    int64  `json:"arg,omitempty"` // "read": seed of its arguments
 }
 
 var me = netip.MustParseAddr("fd10::100")
@@ -121,6 +123,9 @@ func project(e *m.RoutingTableEntry) route {
 
 var dsts = []int{1, 2, 3, 4}
 
+// flatUniv: the addresses reader calls are fed with in the stages of the small universe.
+var flatUniv = []netip.Addr{addrOf(1), addrOf(2), addrOf(3), addrOf(4), me}
+
 func snapshot(rt *m.RoutingTable) (after []route, lookups []map[string]any) {
 	ents := rt.VerifEntries()
 	after = make([]route, 0, len(ents))
@@ -181,6 +186,12 @@ func execWith(c *vf.Ctx, rt *m.RoutingTable, a act, entryOf func(route) m.Routin
 		rt.Clean()
 	case "age":
 		rt.VerifAge(2 * time.Hour)
+	case "read":
+		call, err := callReader(rt, a.Fn, a.Arg, flatUniv)
+		if err != nil {
+			c.Fatal("read: %v", err)
+		}
+		ev["fn"], ev["call"] = a.Fn, call
 	default:
 		panic("unknown op " + a.Name)
 	}
@@ -224,6 +235,8 @@ func sig(ops []act) string {
 			s += fmt.Sprintf("N%d;", a.Peer)
 		case "rmdis":
 			s += fmt.Sprintf("D%d%v;", a.Router, a.Peers)
+		case "read":
+			s += "R" + a.Fn + ";"
 		default:
 			s += a.Name[:1] + ";"
 		}
@@ -269,7 +282,13 @@ func (b *batch) validate(c *vf.Ctx, label string) {
 		lastOp = ops[upto-1].Name
 	}
 	limit := b.limit
-	c.Violation(vf.Key(what, lastOp), fmt.Sprintf("limit=%d, after operations %s the real table violates %s of RoutingTable (trace line %d of %s)", limit, sig(ops), what, rejectAt, label),
+	note := ""
+	if lastOp == "read" {
+		// a call of a read-only method is a stuttering step of the table: name it in the key and the text
+		lastOp = "read-" + ops[upto-1].Fn
+		note = fmt.Sprintf("; the last operation R%s is a call of the table's exported read-only method %v between the operations, behind which the routes must be what they were (ReadOK) and every lookup exact (LookupOK)", ops[upto-1].Fn, b.events[idx].(map[string]any)["call"])
+	}
+	c.Violation(vf.Key(what, lastOp), fmt.Sprintf("limit=%d, after operations %s the real table violates %s of RoutingTable (trace line %d of %s)%s", limit, sig(ops), what, rejectAt, label, note),
 		map[string]any{"limit": limit, "ops": ops, "failing_event": b.events[idx]},
 		func() bool {
 			nb := &batch{limit: limit}
@@ -282,7 +301,7 @@ func (b *batch) validate(c *vf.Ctx, label string) {
 func main() { vf.Main("C11", "model_checking", run) }
 
 func run(c *vf.Ctx) {
-	c.Rule("M: TLC exhaustive over all sequences of <= 4 (thorough 5) operations (AddRoute peer/gossip with system-producible paths, RemoveNextHop, RemoveDisconnected with/without peer list, Clean, ageing) on a universe of 4 addresses in 2 routing prefixes, limit 1 (and 2), checking P1..P7. R: all transitions of the <=3-operation graph (quick: seeded sample) and TLC -simulate walks executed on a real m.RoutingTable; T: Go-PRNG histories; after every operation the real table and all real lookups are projected and TLC evaluates P1..P7 + LookupOK on them. T-par: concurrent episodes on long-lived tables with a big background (writers re-announcing their routes, a goroutine taking direct peers down and up, a reader, all while another goroutine runs Clean); the quiescent table after each episode is judged by TLC against what every sequential order of the calls yields (ParAdded, ParRemoved, ParPeers, ParExpired, ParDuring). distinct = distinct operation-sequence signatures executed on the real table")
+	c.Rule("M: TLC exhaustive over all sequences of <= 4 (thorough 5) operations (AddRoute peer/gossip with system-producible paths, RemoveNextHop, RemoveDisconnected with/without peer list, Clean, ageing) on a universe of 4 addresses in 2 routing prefixes, limit 1 (and 2), checking P1..P7. R: all transitions of the <=3-operation graph (quick: seeded sample) and TLC -simulate walks executed on a real m.RoutingTable; T: Go-PRNG histories; after every operation the real table and all real lookups are projected and TLC evaluates P1..P7 + LookupOK on them; in every other history the exported read-only methods of m.RoutingTable (enumerated by reflection: Format, LookupNearest, LookupNearestRoute, LookupPossiblePaths, ...) are called on the live table between the operations as operations of their own ('read' events: the routes are what they were, all clauses hold behind it). T-nested: the same on nested routable prefixes, hand-made and derived from random geo-marked router addresses with m.GetRoutablePrefixesFor. T-par: concurrent episodes on long-lived tables with a big background (writers re-announcing their routes, a goroutine taking direct peers down and up, a reader, all while another goroutine runs Clean); the quiescent table after each episode is judged by TLC against what every sequential order of the calls yields (ParAdded, ParRemoved, ParPeers, ParExpired, ParDuring). distinct = distinct operation-sequence signatures executed on the real table")
 	c.Assume("only system-producible routes (peer: empty or 2-element path; gossip: >= 1 relay, next hop = first relay)", "the projection VerifEntries returns the table as it is (guarded hook, copy under the table lock)",
 		"T-par: every route key is written by one goroutine per episode, so its last write is well defined; the interleaving is the scheduler's (no hook inside Clean), made likely by tables of 20-40 k entries")
 
@@ -330,12 +349,17 @@ func run(c *vf.Ctx) {
 	c.Logf("R: %d edges, %d cover paths (%d executed)", len(g.Edges), total, len(paths))
 	b1 := &batch{limit: 1}
 	drift := 0
+	rrng := rand.New(rand.NewSource(c.Seed + 4711)) // reader calls have a PRNG of their own: the histories stay what they were
+	reportReaders(c)
 	for pi, p := range paths {
 		ops := make([]act, len(p))
 		for i, ei := range p {
 			if err := json.Unmarshal(g.Edges[ei].Act, &ops[i]); err != nil {
 				c.Fatal("act: %v", err)
 			}
+		}
+		if pi%2 == 1 { // every other path with calls of the table's read-only methods between its operations
+			ops = withReads(rrng, ops, 4)
 		}
 		rt := b1.run(c, ops)
 		c.Distinct(sig(ops))
@@ -373,6 +397,9 @@ func run(c *vf.Ctx) {
 		var cur []act
 		flush := func() {
 			if len(cur) > 0 {
+				if len(b.hists)%2 == 1 {
+					cur = withReads(rrng, cur, 5)
+				}
 				b.run(c, cur)
 				c.Distinct(sig(cur))
 				cur = nil
@@ -427,6 +454,9 @@ func run(c *vf.Ctx) {
 				default:
 					ops = append(ops, act{Name: "age"})
 				}
+			}
+			if k%2 == 1 {
+				ops = withReads(rrng, ops, 5)
 			}
 			b.run(c, ops)
 			c.Distinct(sig(ops))
